@@ -105,7 +105,10 @@ fn dump_lex(f: &LFmt) -> Value {
 /// numbers, whitespace and a few characters no table mentions
 pub fn alphabet() -> Vec<char> {
     let mut cs: Vec<char> = (0x20u8..0x7f).map(|b| b as char).collect();
-    cs.extend(['\t', '\n', '\r', '\u{3000}', '\u{a0}', '词', '项', '名', '甲', '乙', 'é', 'Ω', '①', '٣']);
+    cs.extend(['词', '项', '名', '甲', '乙', 'é', 'Ω', '①', '٣', '²', '２', '½', 'Ⅷ']);
+    // every character with the Unicode White_Space property (char::is_whitespace)
+    cs.extend(['\t', '\n', '\u{b}', '\u{c}', '\r', '\u{85}', '\u{a0}', '\u{1680}', '\u{2000}', '\u{2001}', '\u{2002}', '\u{2003}', '\u{2004}',
+               '\u{2005}', '\u{2006}', '\u{2007}', '\u{2008}', '\u{2009}', '\u{200a}', '\u{2028}', '\u{2029}', '\u{202f}', '\u{205f}', '\u{3000}']);
     let v = json!([FORMATS.iter().map(|n| dump_enum(enum_format(n))).collect::<Vec<_>>(), FORMATS.iter().map(|n| dump_lex(lex_format(n))).collect::<Vec<_>>()]);
     fn walk(v: &Value, out: &mut Vec<char>) {
         match v {
